@@ -133,6 +133,11 @@ def fix_sched(scn):
 
 def build(scn):
     """run the schedule on the real indicator; returns (indicator | None, exception | None)"""
+    with cm.aware(scn.get("tzoff")):
+        return _build(scn)
+
+
+def _build(scn):
     from hexital import indicators as I
 
     stream = scn["stream"]
@@ -249,6 +254,8 @@ def case(rng, idx, params):
         (init, chunks), shape = (len(stream), []), "batch"
     scn = {"prop": "C09", "kind": kind, "kwargs": kw, "tf": tf, "fill": fill, "family": family, "stream": stream, "init": init, "chunks": chunks,
            "bare_single": rng.random() < 0.5}
+    if rng.random() < 0.1 and stream and all(r[0] is not None for r in stream):
+        scn["tzoff"] = rng.choice([0, 330, 345, 60, -300, 765])   # timezone-aware stamps (what ISO strings with an offset parse to)
     viol, info = check(scn)
     if viol:
         sig = viol["signature"]
